@@ -191,6 +191,26 @@ func c18(raw json.RawMessage, resp *drv.Response) error {
 			}
 		}
 	}
+	// (b'') identifiers that must be refused (another extension degree, gates the verifier does not implement) are still refused after
+	// every supported identifier has been resolved in the same process
+	if req.Shard == 0 {
+		for _, c := range cases {
+			if c.Supported {
+				resolve(c.ID)
+			}
+		}
+		for _, c := range cases {
+			if c.Supported {
+				continue
+			}
+			g, p := resolve(c.ID)
+			resp.Count("after-supported/"+c.ID, false)
+			if p == "" {
+				resp.Violate(fmt.Sprintf("c18/resolve/history-dependent-accept gate=%s d=%d", c.Gate, c.D),
+					fmt.Sprintf("identifier %q, refused in a fresh process, is bound to %q once the supported identifiers have been resolved in the same process", c.ID, g.Id()), c)
+			}
+		}
+	}
 	// (c) hiding
 	if req.Shard == 0 {
 		inst := data.ByName("testdata")
